@@ -27,6 +27,11 @@ CLAIMS = {
              'operand, replacement functions and Boolean values symbolic, variable maps iterated.',
         note='ite/find_or_add contract stubs (C01 kernels); bounds in evidence.',
         ref='DESIGN.md section 8 C04'),
+    'C05': dict(
+        text='Bounded symbolic model checking of the parser: the real LALR tables (regenerated from the current grammar/precedence) and the real translator actions run on every token sequence up to 8-9 tokens that the parser accepts; '
+             'operands are symbolic truth tables and z3 decides equality with an independent evaluator written from doc.md. Plus: real to_expr on a symbolic manager followed by the real add_expr (round trip), and the finite table of documented spellings through the real lexer.',
+        note='Text layer cut at the token level (symbolic strings are out of reach): the lexer is exercised on every documented spelling and comment form only; the `=` token has no documented meaning and is excluded; apply/quantify/rename behind denotational contracts (K5, C03, C04).',
+        ref='DESIGN.md section 8 C05'),
     'C06': dict(
         text='Bounded symbolic model checking of collect_garbage (full and rooted) from an arbitrary valid state with an arbitrary ledger of external references: '
              'referenced nodes and their descendants survive unchanged, exactly the needed nodes remain, counts stay exact, no cache entry names a freed node.',
